@@ -29,7 +29,11 @@ CONFIGS = {
     "forbid_extra": {"config": {"forbid_extra_keys": "True"}},
     "allow_alias": {"alias": "meta", "config": {"allow_deserialization_not_by_alias": "True"}},
     "lazy": {"config": {"lazy_compilation": "True"}},
+    # the class extends a parent that has forbid_extra_keys too and a field of its own (the parent is a complete, compiled class)
+    "forbid_extra_inherit": {"config": {"forbid_extra_keys": "True"}, "base": "_PB"},
 }
+PARENT_SRC = ("@dataclass\nclass _PB(DataClassDictMixin):\n    p_: int = field(default=0, kw_only=True)\n"
+              "    class Config(BaseConfig):\n        forbid_extra_keys = True\n")
 
 
 def bounds(tier):
@@ -59,7 +63,7 @@ def units(tier):
     for lay in _layouts(tier):
         out.append((lay, "default", "mixin"))
         if len(lay) <= 2:
-            for c in ("forbid_extra", "allow_alias", "lazy"):
+            for c in ("forbid_extra", "allow_alias", "lazy", "forbid_extra_inherit"):
                 out.append((lay, c, "mixin"))
             out.append((lay, "default", "plain"))
             out.append((lay, "default", "discriminator"))
@@ -225,7 +229,7 @@ DEVIATIONS = (("none_fallback_reproduces", dict(none_in_fallback=True)), ("nt_sw
 
 
 def judge(res, V, desc, ctx, o, fn, label, d, cfgname, holder, disc=None):
-    forbid = cfgname == "forbid_extra"
+    forbid = cfgname in ("forbid_extra", "forbid_extra_inherit")
     before = copy.deepcopy(d)
     dd_ref = {k: v for k, v in d.items() if k != "t"} if (disc and isinstance(d, dict)) else d
     exp = expected(desc, dd_ref, ctx, o, cfgname == "allow_alias")
@@ -245,6 +249,8 @@ def judge(res, V, desc, ctx, o, fn, label, d, cfgname, holder, disc=None):
     known = set(info["aliases"].get(n, n) for n in info["fields"]) | ({"t"} if disc else set())
     if cfgname == "allow_alias":
         known |= set(info["fields"])
+    if cfgname == "forbid_extra_inherit":
+        known |= {"p_"}
     extra = set(d) - known if isinstance(d, dict) else set()
     res.outcomes[kind if kind in DOCUMENTED or kind == "instance" else "other:" + kind] += 1
     if exp[0] != "instance":
@@ -292,6 +298,8 @@ def run_unit(unit, only=None):
                       dict(unit=unit, label=label, facts=dict(facts or {}, empty_dataclass=not lay, scenario=kind)), detail)
     with space.Ctx(dc=cfg) as ctx:
         try:
+            if cfgname == "forbid_extra_inherit":
+                ctx.run(PARENT_SRC)
             cls = space.hint(desc, ctx)
             space.values(desc, ctx)
         except Exception as e:   # noqa: BLE001
